@@ -614,6 +614,37 @@ def uniform_count(ice, tracer, p0, p1):
     return n
 
 
+def tof_bracket(ice, sol, p0, p1):
+    """Physical bracket for the time of flight of a DIRECT ray (depth monotone along the ray) in ice whose
+    index decreases monotonically towards the surface, from the endpoints and the reported launch direction
+    only:  n_min * L_min / c <= tof <= n_max * L_max / c  with n_min / n_max the index at the shallower /
+    deeper endpoint (the ray stays between them), L_min = max(straight distance, dz / cos(theta) at the deeper
+    end) and L_max = dz / cos(theta) at the shallower end (theta grows towards the surface by Snell's law,
+    beta = n sin(theta) constant).  Every term is a bound, not an estimate; 1e-12 relative covers the
+    rounding of these few operations.  Returns None when the bracket is not applicable."""
+    import scipy.constants
+    c = scipy.constants.c
+    z_lo, z_hi = sorted([float(p0[2]), float(p1[2])])
+    if not getattr(sol, "direct", False) or z_hi >= 0:
+        return None
+    d = float(np.linalg.norm(np.asarray(p1, dtype=float) - np.asarray(p0, dtype=float)))
+    dz = z_hi - z_lo
+    n_lo, n_hi = float(ice.index(z_lo)), float(ice.index(z_hi))     # n_lo >= n_hi
+    if not n_lo >= n_hi > 0:
+        return None
+    e = np.asarray(sol.emitted_direction, dtype=float)
+    sin_e = float(np.hypot(e[0], e[1]) / np.linalg.norm(e))
+    beta = float(ice.index(float(p0[2]))) * sin_e
+    lower = n_hi * d / c
+    upper = np.inf
+    if beta < n_hi * (1 - 1e-9):
+        cos_lo = np.sqrt(1 - (beta / n_lo) ** 2)
+        cos_hi = np.sqrt(1 - (beta / n_hi) ** 2)
+        lower = n_hi * max(d, dz / cos_lo) / c
+        upper = n_lo * (dz / cos_hi) / c
+    return lower * (1 - 1e-12), upper * (1 + 1e-12)
+
+
 def run_cell(cell, seed, tmpdir, case=None):
     """Run one cell of the real component matrix (two events) with its own PRNG; returns
     (stats, failure-or-None) where failure = (what, description)."""
@@ -638,6 +669,8 @@ def run_cell(cell, seed, tmpdir, case=None):
         if tn == "Layered" and rng.random() < 0.6:
             # an antenna exactly on the boundary between the two layers
             ant_pos[1] = (40, 10, float(ice.layers[0].valid_range[0]))
+        if tn in ("Specialized", "Basic") and rng.random() < 0.5:
+            ant_pos[-1] = (-30, 5, -rng.uniform(780, 950))
         bounds = ()
         if tn == "Uniform":
             bounds = (float(ice.valid_range[0]),)
@@ -746,6 +779,15 @@ def run_cell(cell, seed, tmpdir, case=None):
                                 bad = "%s: the same ray (tof %r, same directions) is listed twice among %d solutions" % (geo, sols[j1].tof, len(sols))
                     want = None
                     if tn in ("Specialized", "Basic"):
+                        # "delayed by that solution's time of flight": the delay must be physically possible
+                        for sol in sols:
+                            br = tof_bracket(ice, sol, p.vertex, a.position)
+                            if br is not None:
+                                stats["tof_bracket"] = stats.get("tof_bracket", 0) + 1
+                                if not (br[0] <= sol.tof <= br[1]) and not bad:
+                                    bad = ("%s: the direct ray's time of flight %.6e s is outside the physical bracket "
+                                           "[%.6e, %.6e] s (index between the endpoints x length of the reported ray)" % (
+                                               geo, sol.tof, br[0], br[1]))
                         if len(sols) not in (0, 2):
                             bad = "%s: %d ray solutions (the depth-dependent tracers have none or two)" % (geo, len(sols))
                         want = snell_count(ice, p.vertex, a.position)
@@ -761,6 +803,16 @@ def run_cell(cell, seed, tmpdir, case=None):
                             stats["vertical"] = stats.get("vertical", 0) + 1
                         if want != len(sols) and not bad:
                             bad = "%s: the tracer lists %d ray solutions, the independent ray count is %d" % (geo, len(sols), want)
+                            step = float(getattr(rt, "dz", 1.0))
+                            if (tn == "Basic" and want == 2 and not sols
+                                    and abs(float(p.vertex[2]) - float(a.position[2])) <= 1.05 * step):
+                                # known class (a defect of the numeric tracer itself, property C01): the
+                                # BasicRayTracer finds no ray when the endpoints are closer in depth than its
+                                # integration step; confirmed on the analytic tracer before being keyed
+                                from pyrex.ray_tracing import SpecializedRayTracer
+                                ref = SpecializedRayTracer(p.vertex, a.position, ice_model=ice)
+                                if ref.exists and len(ref.solutions) == 2:
+                                    desc["known_class"] = "component-misses-rays:BasicRayTracer:depth-difference-below-dz"
                     if bad:
                         break
                 if bad:
@@ -836,7 +888,9 @@ def run_matrix(ctx, tmpdir):
             stats["slowest"] = sorted(stats["slowest"] + [(round(_time.time() - t0, 2), key)], reverse=True)[:3]
             if bad:
                 cf = bad[1].get("component_failure")
-                if cf:
+                if bad[1].get("known_class"):
+                    ctx.fail(bad[1]["known_class"], bad[0], {"kind": "matrix", "cell_index": ci, "thorough": ctx.thorough, **bad[1]})
+                elif cf:
                     # the shipped ray tracer itself raises for this geometry when used directly: a defect of
                     # that tracer's numerics (property C01), which event() can only propagate.  One key per
                     # (tracer, exception) class; a systematic failure (> 2 cells) is reported under a distinct key.
